@@ -3,7 +3,7 @@ import VOPyVerif.Proofs.ConeVec
 # Helper lemmas for C12: the bundled cones are pointed (`ker W = 0`)
 -/
 namespace VOPy.ConeFormulas
-open VOPy Real
+open VOPy VOPy.ConeOrd Real
 
 theorem list_len2 {α : Type} (x : List α) (h : x.length = 2) : ∃ a b, x = [a, b] := by
   match x, h with
